@@ -47,7 +47,23 @@ func isBigWu(id int) bool {
 	return j >= 0 && (j%8 == 2 || j%8 == 3) && (j/8)*2+(j%8-2) < 300
 }
 
+// isThrWu: warm-up cases whose rule carries ControlBehavior = Throttling (the witness 12 and every fourth
+// generated case).  The throttling checker converts the clock to int64 nanoseconds, so these cases live in
+// a region below 2^63 ns (between the memory-adaptive cases and the ordinary warm-up cases; main runs them
+// in between, so the clock stays monotone).
+func isThrWu(id int) bool {
+	j := id - wuBase
+	return j == 12 || (j > 12 && j%4 == 1)
+}
+
 func caseBase(id int) uint64 {
+	if isThrWu(id) {
+		k := uint64(id-wuBase) / 4 // 13 -> 3, 17 -> 4, ...
+		if id-wuBase == 12 {
+			k = 0
+		}
+		return t0ms + 6000000000000 + k*30000000
+	}
 	if id >= wuBase {
 		j := uint64(id - wuBase)
 		if isBigWu(id) {
@@ -302,7 +318,7 @@ func coqMem(c memCase, o memObs) string {
 
 const (
 	wuBase   = 100000
-	wuWitN   = 12
+	wuWitN   = 13
 	constsID = 999999
 )
 
@@ -386,9 +402,12 @@ func main() {
 	for id := 0; id < nMemMon; id++ {
 		runOneMem(id, id < nMemCorr)
 	}
-	for pass := 0; pass < 2; pass++ { // ordinary cases first, big-gap cases last (monotone clock)
+	for pass := -1; pass < 2; pass++ { // throttling cases, then ordinary cases, big-gap cases last (monotone clock)
 		for j := 0; j < nWuMon; j++ {
-			if isBigWu(wuBase+j) == (pass == 1) {
+			if isThrWu(wuBase+j) != (pass == -1) {
+				continue
+			}
+			if pass == -1 || isBigWu(wuBase+j) == (pass == 1) {
 				runOneWu(wuBase+j, j < nWuCorr)
 			}
 		}
